@@ -32,6 +32,7 @@ def anchors():
 def cases(seed, tier):
     q = tier == "quick"
     out = [{"fam": "synth", "seed": [seed, 11, i], "count": 4} for i in range(70 if q else 1000)]
+    out += [{"fam": "lat-short", "seed": [seed, 11, 5 * 10 ** 5 + i], "count": 6} for i in range(10 if q else 150)]
     dumps = ["initial_furrow.dmp", "12_12/step_22.dmp"] if q else \
         ["initial_furrow.dmp", "last_furrow.dmp"] + [f"12_12/step_{i}.dmp" for i in range(20, 25)] + \
         [f"furrow_gauss_velocity/stage{i}.dmp" for i in range(8)]
@@ -156,7 +157,7 @@ def _install():
         # ---- new (merged) vertices <-> groups
         merged_new = [v for v in nv.values() if id(v) not in old.pos]
         if len(merged_new) != len(groups):
-            mon.fail("merged-count" if not internal_contracted else "F-CONTRACT-INTERNAL",
+            mon.fail("merged-count",
                      "one new vertex per contracted border interface (group)", new=len(merged_new), groups=len(groups),
                      rse=rse)
             return True
@@ -271,11 +272,11 @@ def _install():
         # ---- adjacency
         adj_new = tnew.cell_adjacency(nedges)
         adj_old = {p for p in old.adj if p[0] in ncells and p[1] in ncells}
-        if adj_new != adj_old:
+        # the property promises that no adjacency is LOST; contracting a border interface at a concave corner of the outline
+        # can make two cells neighbours that only touched the contracted interface's two ends before
+        if (adj_old - adj_new) or ((adj_new - adj_old) and not contracted):
             lost = sorted(adj_old - adj_new)[:3]
             mech = "adjacency"
-            if lost and internal_contracted:
-                mech = "F-CONTRACT-INTERNAL"
             mon.fail(mech, "every cell-to-cell adjacency is kept", lost=lost, gained=sorted(adj_new - adj_old)[:3], rse=rse)
         c["npaths"] = len(old.paths)
         c["longest"] = max((len(P) for P in old.paths), default=0)
@@ -290,6 +291,18 @@ def _state(v, e, c):
     return ({vid: (id(x), x.x, x.y) for vid, x in v.items()},
             {cid: [id(w) for w in x.vertices] for cid, x in c.items()},
             sorted(tuple(sorted((x.v1.id, x.v2.id))) for x in e.values()))
+
+
+def _relabel_chain(mon, nfail0, has_chain):
+    if has_chain:
+        # a chain contraction can only disturb what touches vertices of fewer than three cells; junctions of three or more
+        # cells, surviving vertices, cells and the length rules are never excused by it
+        never = {"junction-lost", "junction-moved", "vertex-moved", "cell-lost", "interface-too-long", "short-interface-changed",
+                 "cell-invented"}
+        for f in mon.fails[nfail0:]:
+            if not f["mech"].startswith("F-") and f["mech"] not in never:
+                f["detail"]["original_mech"] = f["mech"]
+                f["mech"] = "F-CONTRACT-CHAIN"
 
 
 def _apply(v, e, c, ne, rse, mon, hist, sigs, label, ncells0):
@@ -321,11 +334,6 @@ def _apply(v, e, c, ne, rse, mon, hist, sigs, label, ncells0):
                  tb=traceback.format_exc()[-500:])
         return None
     CTX.pop("cur", None)
-    if has_chain:
-        for f in mon.fails[nfail0:]:
-            if not f["mech"].startswith("F-"):
-                f["detail"]["original_mech"] = f["mech"]
-                f["mech"] = "F-CONTRACT-CHAIN"
     if cur.get("npaths"):
         sigs.append([label, ncells0, cur["npaths"], ne, rse, cur["contracted"], cur["longest"]])
         hist["contracted-interfaces"] = hist.get("contracted-interfaces", 0) + cur["contracted"]
@@ -342,12 +350,14 @@ def _apply(v, e, c, ne, rse, mon, hist, sigs, label, ncells0):
         out2 = ve.generate_mesh(out[0], out[1], out[2], ne=ne, replace_short_edges=rse)
     except Exception as exc:
         mon.fail("second-pass-raises", "resampling an already resampled mesh changes nothing", exc=repr(exc)[:200], ne=ne, rse=rse)
+        _relabel_chain(mon, nfail0, has_chain)
         return out
     s2 = _state(out2[0], out2[1], out2[2])
     mon.count("clause:idempotent")
     if s1 != s2:
         what = [n for n, a, b in zip(("vertices", "cycles", "edges"), s1, s2) if a != b]
         mon.fail("F-PARALLEL-INTERFACES" if (parallel and what == ["edges"] and len(s2[2]) < len(s1[2])) else "not-idempotent", "resampling an already resampled mesh changes nothing", differs=what, ne=ne, rse=rse)
+    _relabel_chain(mon, nfail0, has_chain)
     return out2
 
 
@@ -362,7 +372,9 @@ def run_case(case):
     with env.Capture() as cap:
         if fam == "synth":
             for _ in range(case["count"]):
-                at = scen.base_tissue(rng, ["vor", "arc", "mob"][int(rng.integers(3))], ncells=int(rng.integers(8, 50)))
+                # lattices bring four-fold junctions, T-junctions and three-cell junctions lying on the outline
+                at = scen.base_tissue(rng, ["vor", "arc", "mob", "vor", "arc", "mob", "lat-square", "lat-brick", "lat-hex"][int(rng.integers(9))],
+                                      ncells=int(rng.integers(8, 50)))
                 if rng.random() < 0.6:
                     at = at.sub(tissue.random_connected_subset(rng, at, int(rng.integers(2, len(at.cells) + 1))))
                 if rng.random() < 0.3 and len(at.cells) > 8:
@@ -376,6 +388,16 @@ def run_case(case):
                                     edge_dirs=True, spacing="random" if rng.random() < 0.3 else "uniform")
                 _apply(r.vertices, r.edges, r.cells, int(rng.integers(1, 13)), bool(rng.random() < 0.6), mon, hist, sigs,
                        "synth", len(at.cells))
+        elif fam == "lat-short":
+            # lattice sub-tissues with two-point (and a few three-point) interfaces: concave corners of the outline put
+            # junctions of three cells ON the outline, next to two-point border interfaces
+            for _ in range(case["count"]):
+                at = scen.base_tissue(rng, ["lat-square", "lat-brick", "lat-square"][int(rng.integers(3))])
+                if len(at.cells) > 3:
+                    at = at.sub(tissue.random_connected_subset(rng, at, int(rng.integers(3, len(at.cells) + 1))))
+                r = realise.realise(at, k=0 if rng.random() < 0.6 else (0, 1), rng=rng, relabel=bool(rng.integers(2)), shifts=True,
+                                    flips="random", edge_dirs=True)
+                _apply(r.vertices, r.edges, r.cells, int(rng.integers(2, 8)), True, mon, hist, sigs, "lat-short", len(at.cells))
         elif fam == "se-fixture":
             from forsys import surface_evolver as se
             lat = se.SurfaceEvolver(os.path.join(FIX, case["file"]))
